@@ -1212,6 +1212,16 @@ fin:
 	return res;
 }
 
+static inline __attribute__((const, pure)) unsigned int
+gcd12(unsigned int x)
+{
+/* gcd(x, 12) */
+	static const uint8_t g[] = {
+		12U, 1U, 2U, 3U, 4U, 1U, 6U, 1U, 4U, 3U, 2U, 1U,
+	};
+	return g[x % 12U];
+}
+
 size_t
 rrul_fill_mly(echs_instant_t *restrict tgt, size_t nti, rrulsp_t rr)
 {
@@ -1288,9 +1298,10 @@ rrul_fill_mly(echs_instant_t *restrict tgt, size_t nti, rrulsp_t rr)
 	if (UNLIKELY(bui31_has_bits_p(rr->mon))) {
 		bitint_iter_t bm = 0UL;
 
-		/* check that some of the months are congruent m modulo inter */
+		/* check that some of the months can be reached from m in steps
+		 * of inter, i.e. are congruent m modulo gcd(inter, 12) */
 		while (bui31_next(&bm, rr->mon) &&
-		       ((m + 12U) - (bm - 1U)) % rr->inter);
+		       ((m + 12U) - (bm - 1U)) % gcd12(rr->inter));
 		if (UNLIKELY(!bm)) {
 			goto fin;
 		}
